@@ -58,12 +58,13 @@ def scenario(transport, framing, ka, T, R, script, connect=(), nreq=1, family=No
     return sc
 
 
-def scenario_then_silent(transport, framing, ka, T, R, script):
-    """request 1 under `script`, request 2 against a silent peer (scripts keyed by register)."""
+def scenario_then_silent(transport, framing, ka, T, R, script, gap=0.0):
+    """request 1 under `script`, then (after `gap`) request 2 against a silent peer (scripts keyed by register)."""
+    steps = [["read", 100, 2]] + ([["sleep", gap]] if gap else []) + [["read", 101, 2]]
     return {"transport": transport, "framing": framing, "keep_alive": ka, "T": T, "R": R,
-            "by_reg": {100: [expand(s, T) for s in script], 101: []}, "after": "drop", "fullscript": list(script),
+            "by_reg": {100: [expand(s, T) for s in script], 101: []}, "after": "drop", "fullscript": list(script) + [f"gap={gap}"],
             "then_silent": True, "send_faults": {}, "connect": [],
-            "tasks": [{"start": 0.0, "steps": [["read", 100, 2], ["read", 101, 2]]}]}
+            "tasks": [{"start": 0.0, "steps": steps}]}
 
 
 def scenario_idle_garbage(transport, framing, ka, T, R, D, hops=0):
@@ -246,6 +247,10 @@ def run_shard(spec):
         for d in range(1, min(R + 1, 3) + 1):
             for script in itertools.product(alpha, repeat=d):
                 run_case(scenario_then_silent(spec["transport"], spec["framing"], spec["ka"], spec["T"], R, list(script)), part)
+                if d == 1 or script[-1] in ("now", "intime", "exc", "frag2"):
+                    # request 2 starts 0.4 T after request 1 ended: a timer left armed by request 1 would now fire inside it
+                    run_case(scenario_then_silent(spec["transport"], spec["framing"], spec["ka"], spec["T"], R, list(script),
+                                                  gap=0.4 * spec["T"]), part)
         for D in (0.0, 0.5, 1.0, 2.5):
             for hops in range(0, 8):        # arrival phase of the stale datagram relative to the caller's wake-up
                 run_case(scenario_idle_garbage(spec["transport"], spec["framing"], spec["ka"], spec["T"], R, D * spec["T"], hops), part)
